@@ -43,7 +43,7 @@ def getter_model(fields):
         a = args[0]
         if isinstance(a, Opaque) and hasattr(a, "dims"):
             return [(st, Int(a.dims[name]), "return", "")]
-        tgt = a.cell.v if isinstance(a, Ref) else a
+        tgt = mirsmt.val_of(a)
         if isinstance(tgt, Tup) and hasattr(tgt, "sname"):
             order = fields[tgt.sname]
             key = name
@@ -57,7 +57,7 @@ def getter_model(fields):
 def data_model(ex, st, callee, args, ty):
     """TooDee::data / data_mut / TooDeeViewCommon::data: the backing slice."""
     a = args[0]
-    tgt = a.cell.v if isinstance(a, Ref) else a
+    tgt = mirsmt.val_of(a)
     if isinstance(tgt, Tup):
         for f in tgt.fs:
             if isinstance(f, Slice):
@@ -253,6 +253,16 @@ def vectors_for(k):
             if not owned:
                 v["stride"] = st
             vs.append(v)
+    elif r[0] == "b_swap_rows":
+        owned = r[1] == "owned"
+        for (c, rr, st, r1, r2) in [(3, 3, 3, 0, 2), (3, 3, 5, 2, 0), (2, 4, 3, 1, 1), (2, 4, 2, 4, 4), (2, 4, 4, 0, 4), (1, 2, 1, 1, 0), (3, 2, 3, M63, 0), (0, 0, 0, 0, 0)]:
+            if owned:
+                st = c
+            ln = rr * c if owned else (0 if rr == 0 else (rr - 1) * st + c)
+            v = dict(cols=c, rows=rr, len=ln, r1=r1, r2=r2)
+            if not owned:
+                v["stride"] = st
+            vs.append(v)
     elif r[0] == "b_view":
         owned = r[1] == "owned"
         for (c, rr, st, sc, sr, ec, er) in [(4, 4, 4, 0, 1, 2, 3), (4, 4, 6, 1, 1, 3, 3), (4, 4, 4, 4, 4, 4, 4), (4, 4, 5, 2, 2, 2, 4), (3, 2, 3, 0, 0, 4, 2), (3, 2, 3, 2, 0, 1, 2), (3, 2, 4, 0, 0, 3, 3), (0, 0, 0, 0, 0, 0, 0), (1, 1, 1, 0, 0, 1, 1)]:
@@ -330,6 +340,8 @@ def witness_to_replay(k, wit):
         return f"b_access_r{recv}_a{acc}", [g("cols"), g("rows"), stride, col, row]
     if r[0] == "b_view":
         return f"b_view_{0 if r[1] == 'owned' else 1}", [g("cols"), g("rows"), g("stride", g("cols")), g("start_c"), g("start_r"), g("end_c"), g("end_r")]
+    if r[0] == "b_swap_rows":
+        return f"b_swap_rows_{0 if r[1] == 'owned' else 1}", [g("cols"), g("rows"), g("stride", g("cols")), g("r1"), g("r2")]
     if r[0] == "b_cursor":
         return f"b_cursor_{r[1]}_{r[2]}", [g("cols", 1), g("skip"), g("items"), g("n")]
     if r[0] == "b_ctor":
@@ -380,15 +392,6 @@ def run_property(prop, tier="quick"):
         "wall_s": round(time.time() - t0, 1), "solvers": "cvc5 1.0 + z3 5.1 (both must agree)",
     }
     return results, summary
-
-
-if __name__ == "__main__":
-    res, summ = run_property(sys.argv[1])
-    for r in res:
-        print(r["kernel"], "|", r["semantics"], "| fns", len(r["functions"]), "paths", r["paths"], "queries", r["queries"], "unsat", r["unsat"], "sat", len(r["sat"]), "inconcl", r["inconclusive"][:2])
-        for s in r["sat"]:
-            print("    SAT", s["function"], s["path_kind"], s["witness"], s["solvers"])
-    print(summ)
 
 
 # ============================================================================================
@@ -473,16 +476,7 @@ def st_models(fields):
         return [(s1, Opaque("drain"), "return", ""), (s2, None, "panic", "drain range out of bounds")]
 
     def mem_swap(ex, st, callee, args, ty):
-        a, b = args
-        va, vb = val_of(a), val_of(b)
-        for r, v in ((a, vb), (b, va)):
-            if isinstance(r, FieldRef):
-                r.tup.fs[r.idx] = v
-            elif isinstance(r, Ref):
-                r.cell.v = v
-            else:
-                raise Unsupported("mem::swap on values")
-        return m_ret(st, Tup([]))
+        return mirsmt.model_mem_swap(ex, st, callee, args, ty)
 
     def shrink(ex, st, callee, args, ty):
         return m_ret(st, Tup([]))
@@ -586,3 +580,14 @@ def run_state_kernels(fns, wrapping, fields, want):
                 res["inconclusive"].append(f"{name}: solver verdicts {verdicts} on a {cls} exit")
         out.append(res)
     return out
+
+
+if __name__ == "__main__":
+    res, summ = run_property(sys.argv[1])
+    for r in res:
+        print(r["kernel"], "|", r["semantics"], "| fns", len(r.get("functions", [r.get("function")])), "paths", r["paths"], "queries", r["queries"], "unsat", r["unsat"], "sat", len(r["sat"]), "inconcl", r["inconclusive"][:2])
+        for s in r["sat"]:
+            print("    SAT", s["function"], s["path_kind"], s["witness"], s["solvers"])
+    print(summ)
+
+
